@@ -25,6 +25,9 @@ def check(chk):
     r117(chk, m)
     r118(chk, m)
     r119(chk, m)
+    from . import shared, c02
+    shared.category_sequence_rules(chk, m, 'R11.10')      # the verbatim codes are in force for every character read after the switch
+    c02.r23(chk, m, rule_id='R11.11')                     # "with user macros expanded": optional arguments of user macros
     chk.decline('token-for-token equality of the reconstructed math source with the author\'s formula for every formula '
                 '(composition of per-node source properties over arbitrary trees is a runtime value)')
 
